@@ -46,6 +46,18 @@ static edn_value_t* ref(const char* s, const char** rest) {
 
 static void dump_noranges(const edn_value_t* v);
 
+/* external-type callbacks by kind k: equality 0/2 = same pointer, 1/3 = always, 5/6 = equal modulo 1000, 4 = none;
+   hash 0 = the pointer, 1 = constant 7, 5 = pointer modulo 1000, 2/3/6 = none (the library hashes the pointer) */
+static bool xeq0(const void* a, const void* b) { return a == b; }
+static bool xeq1(const void* a, const void* b) { (void) a; (void) b; return true; }
+static bool xeq2(const void* a, const void* b) { return ((uintptr_t) a % 1000) == ((uintptr_t) b % 1000); }
+static uint64_t xh0(const void* a) { return (uint64_t) (uintptr_t) a; }
+static uint64_t xh1(const void* a) { (void) a; return 7; }
+static uint64_t xh2(const void* a) { return (uint64_t) ((uintptr_t) a % 1000); }
+static edn_external_equal_fn ext_eq_of(int k) { return k == 4 ? NULL : (k == 1 || k == 3) ? xeq1 : (k == 5 || k == 6) ? xeq2 : xeq0; }
+static edn_external_hash_fn ext_hash_of(int k) { return k == 0 ? xh0 : k == 1 ? xh1 : k == 5 ? xh2 : NULL; }
+static uint32_t g_xused[64]; static int g_nxused = 0;
+
 static void run_script(char* text) {
     int first = 1;
     const void* last_get_ptr[MAXH] = {0};
@@ -64,6 +76,29 @@ static void run_script(char* text) {
             edn_result_t r = g_hbuf[h].n ? edn_read(g_hbuf[h].p, g_hbuf[h].n) : edn_read("", 0);
             g_h[h] = r.value;
             printf(r.value ? "ok" : "err:%s", err_name(r.error));
+        } else if (c == 'R') {     /* R<h>=<hex> : read with the registry x:4,y:0 (external values) */
+            int h = (int) strtol(a, (char**) &a, 10);
+            a++;
+            if (g_h[h]) { edn_free(g_h[h]); g_h[h] = NULL; }
+            if (g_hbuf[h].p) buf_free(&g_hbuf[h]);
+            g_hbuf[h] = buf_from_hex(a);
+            edn_reader_registry_t* reg = edn_reader_registry_create();     /* (registry_from_spec uses strtok) */
+            edn_reader_register(reg, "x", g_handlers[4]);
+            edn_reader_register(reg, "y", g_handlers[0]);
+            edn_parse_options_t opt; memset(&opt, 0, sizeof opt); opt.reader_registry = reg;
+            edn_result_t r = g_hbuf[h].n ? edn_read_with_options(g_hbuf[h].p, g_hbuf[h].n, &opt) : edn_read_with_options("", 0, &opt);
+            edn_reader_registry_destroy(reg);
+            g_h[h] = r.value;
+            printf(r.value ? "ok" : "err:%s", err_name(r.error));
+        } else if (c == 'X') {     /* Xr<id>:<k> | Xu<id> : external-type table (cleared at the end of the script) */
+            if (a[0] == 'r') {
+                char* colon = strrchr(a, ':');
+                uint32_t id = (uint32_t) strtoul(a + 1, 0, 10);
+                int k = atoi(colon + 1);
+                printf("%d", (int) edn_external_register_type(id, ext_eq_of(k), ext_hash_of(k)));
+                if (g_nxused < 64) g_xused[g_nxused++] = id;
+            } else if (a[0] == 'u') { edn_external_unregister_type((uint32_t) strtoul(a + 1, 0, 10)); printf("-"); }
+            else printf("badop");
         } else if (c == 'F') {     /* F<h> */
             int h = atoi(a);
             if (g_h[h]) edn_free(g_h[h]);
@@ -148,6 +183,8 @@ static void run_script(char* text) {
         if (g_h[h]) { edn_free(g_h[h]); g_h[h] = NULL; }
         if (g_hbuf[h].p) buf_free(&g_hbuf[h]);
     }
+    for (int i = 0; i < g_nxused; i++) edn_external_unregister_type(g_xused[i]);
+    g_nxused = 0;
 }
 
 /* dump without source ranges: type/contents only (used by scripts) */
@@ -192,10 +229,6 @@ static void run_registry_ops(char* text) {
 }
 
 /* ---- external type table:  ext <ops> with  r<id>:<k>  u<id>  l<id>  (k selects callbacks) ---- */
-static bool xeq0(const void* a, const void* b) { return a == b; }
-static bool xeq1(const void* a, const void* b) { (void) a; (void) b; return true; }
-static uint64_t xh0(const void* a) { return (uint64_t) (uintptr_t) a; }
-static uint64_t xh1(const void* a) { (void) a; return 7; }
 static void run_ext_ops(char* text) {
     int first = 1;
     uint32_t used[64]; int nused = 0;
@@ -208,9 +241,7 @@ static void run_ext_ops(char* text) {
             uint32_t id = (uint32_t) strtoul(op + 1, 0, 10);
             int k = atoi(colon + 1);
             /* k: 0 = (eq0, hash0), 1 = (eq1, hash1), 2 = (eq0, no hash), 3 = (eq1, no hash), 4 = no equality (refused) */
-            edn_external_equal_fn ef = (k == 4) ? NULL : ((k & 1) ? xeq1 : xeq0);
-            edn_external_hash_fn hf = (k == 2 || k == 3) ? NULL : ((k & 1) ? xh1 : xh0);
-            printf("%d", (int) edn_external_register_type(id, ef, hf));
+            printf("%d", (int) edn_external_register_type(id, ext_eq_of(k), ext_hash_of(k)));
             if (nused < 64) used[nused++] = id;
         } else if (op[0] == 'u') { edn_external_unregister_type((uint32_t) strtoul(op + 1, 0, 10)); printf("-"); }
         else if (op[0] == 'l') {
